@@ -84,9 +84,17 @@ func NonTrivial(name, key string) bool {
 	if s.Hashes[h] {
 		return false
 	}
+	if len(s.Hashes) >= maxHashes {
+		// very long campaigns: the set stops growing, the reported number of distinct cases is then a lower bound
+		s.Extra["distinct_set_capped_at"] = maxHashes
+		return false
+	}
 	s.Hashes[h] = true
 	return true
 }
+
+// maxHashes bounds the memory of the distinct-case set of one process (and the size of its statistics file).
+const maxHashes = 1500000
 
 // Class increments a histogram bucket.
 func Class(name, class string) {
